@@ -10,7 +10,7 @@ R4 json_object_from_fd_ex hands the caller's depth to the constructor
 from ..ir import load_program
 from ..cfg import cfg_of, CallGraph
 from ..flow import Paths, dominating_conditions
-from .. import lin, tokauto, tokrules, product
+from .. import lin, tokauto, tokrules, product, pe
 
 
 def run(chk):
@@ -281,27 +281,73 @@ def r3(chk, prog):
         chk.proven(rid, f.name, "recursion", f.entry.term.locstr(), "not reachable from itself through %d callees" % len(reach))
 
 
+class _DepthPE(pe.PE):
+    def should_inline(self, g, instr):
+        return False
+
+    def init_mem(self, state, base, path, t):
+        return pe.TOP
+
+    def call_model(self, state, frame, i, args):
+        nm = i.callee
+        if nm == "json_tokener_new_ex":
+            state.trace.append(("new_ex", args[0]))
+            return "STOP"
+        if nm == "json_tokener_new":
+            state.trace.append(("new_ex", "default"))
+            return "STOP"
+        if nm in ("printbuf_new",):
+            return ("ptr", "pb", ())
+        if nm == "__errno_location":
+            return ("ptr", "errno", ())
+        return None
+
+    def _call(self, stack, block, i, state, nextidx):
+        r = super()._call(stack, block, i, state, nextidx)
+        if r == [] and state.trace and state.trace[-1][0] == "new_ex":
+            self.created.append((state.trace[-1][1], dict(state.roots)))
+        return r
+
+
 def r4(chk, prog):
     rid = "C15.R4"
-    chk.rule(rid, "json_object_from_fd_ex creates its parser with the caller's depth (or the default when it is -1)")
+    chk.rule(rid, "json_object_from_fd_ex hands the caller's depth to the parser constructor for every depth other than -1, and the "
+                  "default for -1 (decision table over the depths INT_MIN, -2, -1, 0, 1, 2, 31, 32, 33, INT_MAX); a depth below 1 may "
+                  "also be refused before a parser is created, never replaced by another limit")
     f = prog.fn("json_object_from_fd_ex")
     chk.require(f is not None, "json_object_from_fd_ex not found")
     chk.touched(f)
-    P = Paths(f, prog)
-    calls = [i for i in f.instrs() if i.op == "call" and i.callee == "json_tokener_new_ex"]
-    pname = f.params[1][1]
-    ok = False
-    for c in calls:
-        a = c.ops[0]
-        # the argument is the parameter, or a phi/select of the parameter and the default constant
-        regs = {pname}
-        src = a
-        if src.kind == "reg" and src.v in f.defs and f.defs[src.v].op in ("phi", "select"):
-            ops = f.defs[src.v].ops
-            ok = any(o.kind == "reg" and o.v == pname for o in ops) and all((o.kind == "reg" and o.v == pname) or o.kind == "int" or o.type == "i1" for o in ops)
-        elif src.kind == "reg" and src.v == pname:
-            ok = True
-    if ok:
-        chk.proven(rid, f.name, "json_tokener_new_ex(depth)", calls[0].locstr(), "parser created with the caller's limit")
+    samples = [-(1 << 31), -2, -1, 0, 1, 2, 31, 32, 33, (1 << 31) - 1]
+    default = None
+    for g in prog.modules:
+        pass
+    bad = None
+    n = 0
+    for d in samples:
+        h = _DepthPE(prog, max_leaves=200, max_steps=50000)
+        h.created = []
+        leaves = h.run(f, [pe.C(3), pe.C(d)], pe.State())
+        n += 1
+        vals = set()
+        for v, roots in h.created:
+            vals.add(v[1] if (isinstance(v, tuple) and pe.is_const(v)) else ("default" if v == "default" else None))
+        refused = any(lf.kind == "ret" and lf.value is not None and pe.is_const(lf.value) and lf.value[1] == 0 for lf in leaves) and not h.created
+        if d == -1:
+            ok = len(vals) == 1 and None not in vals and (next(iter(vals)) == "default" or (isinstance(next(iter(vals)), int) and next(iter(vals)) >= 1))
+            if ok and isinstance(next(iter(vals)), int):
+                default = next(iter(vals))
+        elif d >= 1:
+            ok = vals == {d}
+        else:
+            ok = vals == {d} or (refused and not vals)
+        if not ok and bad is None:
+            bad = (d, vals, refused)
+    sig = "json_tokener_new_ex(depth)"
+    if bad:
+        d, vals, refused = bad
+        chk.refuted(rid, f.name, sig, f.entry.term.locstr(),
+                    "for the caller's depth %d the parser is created with %s%s: the configured limit is not the one enforced"
+                    % (d, sorted(str(v) for v in vals) or "nothing", " (and the call is refused)" if refused else ""))
     else:
-        chk.refuted(rid, f.name, "json_tokener_new_ex(depth)", (calls[0] if calls else f.entry.term).locstr(), "the caller's depth limit does not reach the parser constructor")
+        chk.proven(rid, f.name, sig, f.entry.term.locstr(), "%d depths: the caller's limit reaches the constructor (default %s for -1)" % (n, default))
+    chk.floor(rid, n, 10, "depth values evaluated")
